@@ -1659,3 +1659,87 @@ func (c *Ctx) NoWrap(fnSpec, callee string, idx int, desc string) {
 	}
 	c.add("A", fnSpec, role, desc, report.OK, short(f.Term(calls[0].Common().Args[0]).String()), c.posOf(calls[0]))
 }
+
+// StoresOnlyFields: every store in fn into a value of the named struct type that is not a fresh local (a stored or
+// shared object: reached through a pointer, slice element or field) writes one of the allowed fields; whole-struct
+// overwrites and writes to other fields are reported. At least one allowed store exists.
+func (c *Ctx) StoresOnlyFields(fnSpec, typeName string, allowed []string, desc string) {
+	f := c.Fn(fnSpec)
+	if f == nil {
+		return
+	}
+	role := "storesonly/" + typeName
+	ok := map[string]bool{}
+	for _, a := range allowed {
+		ok[a] = true
+	}
+	isT := func(t types.Type) bool {
+		if p, isP := t.Underlying().(*types.Pointer); isP {
+			t = p.Elem()
+		}
+		n, isN := t.(*types.Named)
+		return isN && n.Obj().Name() == typeName
+	}
+	localRoot := func(v ssa.Value) bool {
+		for {
+			switch x := v.(type) {
+			case *ssa.Alloc:
+				return !x.Heap || true && strings.HasPrefix(x.Comment, "complit") || x.Comment != "" && !x.Heap
+			case *ssa.FieldAddr:
+				v = x.X
+			case *ssa.IndexAddr:
+				return false
+			default:
+				return false
+			}
+		}
+	}
+	n := 0
+	for _, b := range f.Fn.Blocks {
+		for _, ins := range b.Instrs {
+			st, isSt := ins.(*ssa.Store)
+			if !isSt {
+				continue
+			}
+			switch a := st.Addr.(type) {
+			case *ssa.FieldAddr:
+				if !isT(a.X.Type()) || localRoot(a.X) {
+					continue
+				}
+				fld := fieldNameOf(a.X.Type(), a.Field)
+				if !ok[fld] {
+					c.add("A", fnSpec, role, desc, report.Violated, "field "+fld+" of a shared "+typeName+" is written", c.posOf(st))
+					return
+				}
+				n++
+			case *ssa.IndexAddr:
+				if isT(st.Val.Type()) {
+					c.add("A", fnSpec, role, desc, report.Violated, "a whole "+typeName+" element is overwritten with "+short(f.Term(st.Val).String()), c.posOf(st))
+					return
+				}
+			default:
+				if isT(st.Val.Type()) && !localRoot(st.Addr) {
+					if _, isAlloc := st.Addr.(*ssa.Alloc); !isAlloc {
+						c.add("A", fnSpec, role, desc, report.Violated, "a whole "+typeName+" is overwritten through a pointer", c.posOf(st))
+						return
+					}
+				}
+			}
+		}
+	}
+	if n == 0 {
+		c.add("A", fnSpec, role, desc, report.Violated, "no store to an allowed field found", c.fnPos(f))
+		return
+	}
+	c.add("A", fnSpec, role, desc, report.OK, fmt.Sprintf("%d store(s), all to %s", n, strings.Join(allowed, ",")), c.fnPos(f))
+}
+
+func fieldNameOf(t types.Type, i int) string {
+	if p, ok := t.Underlying().(*types.Pointer); ok {
+		t = p.Elem()
+	}
+	if st, ok := t.Underlying().(*types.Struct); ok && i < st.NumFields() {
+		return st.Field(i).Name()
+	}
+	return fmt.Sprint(i)
+}
